@@ -1,5 +1,6 @@
 // C18 harness: generated loop relations through every termination-analysis entry point.
 //   c18_term --seed S --first A --last B [--per P] [--maxn N] [--cpu SEC]
+//   c18_term --replay-file F      (F: the `case` line and the R0 / B0 / A0 lines of a recorded case)
 // Journal (one event per line; systems in the encoding of poly_io.hh / Lin/Parse.lean):
 //   case <id> <kind> <form> <n> <template>        kind: C NNC BDS OS BOX GRID; form: 1 | 2
 //   R <cs over 2n>            form 1: pset.minimized_constraints() (what the library reads)
@@ -363,7 +364,59 @@ static void one_case(Rng& r, long id, dimension_type maxn) {
   J.line("end");
 }
 
+// ---- replay: rebuild the pointsets of a recorded case from its constraints() lines -----------
+static Constraint_System parse_cs(std::istringstream& in, dimension_type d) {
+  Constraint_System cs;
+  if (d > 0) cs.insert(0 * Variable(d - 1) >= -1);
+  long m = 0; in >> m;
+  for (long i = 0; i < m; ++i) {
+    std::string rel; in >> rel;
+    mpz_class k; in >> k;
+    Linear_Expression e; e += Coefficient(k);
+    for (dimension_type j = 0; j < d; ++j) { mpz_class a; in >> a; e += Coefficient(a) * Variable(j); }
+    if (rel == "=") cs.insert(e == 0); else if (rel == ">") cs.insert(e > 0); else cs.insert(e >= 0);
+  }
+  return cs;
+}
+
+template <class P> static void replay_kind(int form, dimension_type n, const Constraint_System& r,
+                                           const Constraint_System& b, const Constraint_System& a) {
+  const dimension_type d = 2 * n;
+  if (form == 1) { P p(d); p.refine_with_constraints(r); run_form1(p, n); }
+  else { P pb(n); pb.refine_with_constraints(b); P pa(d); pa.refine_with_constraints(a); run_form2(pb, pa, n); }
+}
+
+static int replay_file(const char* path) {
+  FILE* f = fopen(path, "r");
+  if (!f) { perror(path); return 2; }
+  std::string kind, tmpl; int form = 1; dimension_type n = 0; long id = 0;
+  Constraint_System r, b, a;
+  char buf[1 << 16];
+  while (fgets(buf, sizeof buf, f)) {
+    std::istringstream in(buf);
+    std::string tag; in >> tag;
+    if (tag == "case") { in >> id >> kind >> form >> n >> tmpl; }
+    else if (tag == "R0") r = parse_cs(in, 2 * n);
+    else if (tag == "B0") b = parse_cs(in, n);
+    else if (tag == "A0") a = parse_cs(in, 2 * n);
+  }
+  fclose(f);
+  { OS o; o << "case " << id << " " << kind << " " << form << " " << n << " " << tmpl; J.line(o.str()); }
+  try {
+    if (kind == "C") replay_kind<C_Polyhedron>(form, n, r, b, a);
+    else if (kind == "NNC") replay_kind<NNC_Polyhedron>(form, n, r, b, a);
+    else if (kind == "BDS") replay_kind<BDS>(form, n, r, b, a);
+    else if (kind == "OS") replay_kind<OSH>(form, n, r, b, a);
+    else if (kind == "BOX") replay_kind<Rational_Box>(form, n, r, b, a);
+    else replay_kind<Grid>(form, n, r, b, a);
+  } catch (...) { J.line(std::string("x build ") + pplv::exc_class()); }
+  J.line("end");
+  return 0;
+}
+
 int main(int argc, char** argv) {
+  const char* rp = pplv::arg_str(argc, argv, "--replay-file", 0);
+  if (rp) return replay_file(rp);
   long seed = pplv::arg_long(argc, argv, "--seed", 1);
   long first = pplv::arg_long(argc, argv, "--first", 0);
   long last = pplv::arg_long(argc, argv, "--last", 10);
